@@ -398,6 +398,150 @@ mod known_f18b_composite_nested_enum {
     }
 }
 
+/// Finding 21 (C02, C03, C20): a `#[flat]` enum WITH FIELDS and explicit discriminants: the generated `<Name>Tag` helper dropped the
+/// discriminants, so the validator accepted tags 0..N instead of the declared ones (sized), and wrote 0..N (unsized).
+#[cfg(test)]
+mod f21_explicit_discriminants_data_enum {
+    use super::common::*;
+    #[flat]
+    #[derive(Debug, PartialEq, Eq, Default)]
+    enum E { #[default] A = 1, B(u8) = 5 }
+    #[flat(sized = false)]
+    enum U { A = 3, B(u8, FlatVec<u8, u8>) = 9 }
+    #[test]
+    fn sized_valid_image_accepted_and_invalid_refused() {
+        assert_eq!(E::B(7).as_bytes()[0], 5);
+        let mem = aligned(&[5, 7], 1);
+        assert_eq!(E::from_bytes(&mem).ok(), Some(&E::B(7)), "valid image refused");
+        let mem = aligned(&[0, 7], 1);
+        assert!(E::from_bytes(&mem).is_err(), "tag 0 accepted");
+        let mut b = aligned(&[0xff, 0xff], 1);
+        E::default_in_place(&mut b).unwrap();
+        assert!(E::validate(&b).is_ok(), "default does not validate");
+        assert_eq!(b[0], 1);
+    }
+    #[test]
+    fn unsized_tag_is_the_declared_one() {
+        let mut b = AlignedBytes::new(8, 1);
+        b.iter_mut().for_each(|x| *x = 0);
+        U::new_in_place(&mut b, UInitB(1, flat_vec![2u8, 3])).unwrap();
+        assert_eq!(b[0], 9, "declared discriminant not used");
+        assert!(U::validate(&b).is_ok());
+        let mem = aligned(&[3, 0, 0, 0], 1);
+        assert!(U::validate(&mem).is_ok());
+        let mem = aligned(&[0, 0, 0, 0], 1);
+        assert!(U::validate(&mem).is_err(), "tag 0 accepted");
+        // tag 9 with too little room for B's fields must be InsufficientSize, not a panic
+        let mem = aligned(&[9], 1);
+        assert_eq!(U::validate(&mem).unwrap_err().kind, ErrorKind::InsufficientSize);
+    }
+}
+
+/// Finding 22 (C10, C06): a SEALED (non-last) FlexVec item whose fixed extent is too small for its content was reported as
+/// InsufficientSize ("send more bytes") although no further byte can change it; the receiver then reads until OutOfMemory.
+#[cfg(test)]
+mod f22_sealed_item_shortfall {
+    use super::common::*;
+    type V = FlexVec<FlatVec<i32, u16>, u16>;
+    #[test]
+    fn sealed_item_too_small_is_a_content_error() {
+        // slot0 = 4: the item ends right behind its slot, no room for the FlatVec header; then a zero terminator
+        let mem = aligned(&[4, 0, 0, 0, 0, 0, 0, 0], 4);
+        assert_eq!(V::validate(&mem).unwrap_err().kind, ErrorKind::InvalidData);
+        // sealed item with 4 payload bytes (capacity 0) announcing len 1
+        let mem = aligned(&[8, 0, 0, 0, 1, 0, 0, 0, 0, 0, 0, 0], 4);
+        assert_eq!(V::validate(&mem).unwrap_err().kind, ErrorKind::InvalidData);
+    }
+    #[test]
+    fn open_last_item_shortfall_still_asks_for_more() {
+        // last item (0xffff marker) announcing len 1 with no room yet: more input can complete it
+        let mem = aligned(&[0xff, 0xff, 0, 0, 1, 0, 0, 0], 4);
+        assert_eq!(V::validate(&mem).unwrap_err().kind, ErrorKind::InsufficientSize);
+    }
+}
+
+/// Finding 23 (C01): `FlatVec<ZST, L>` has unbounded capacity, so the validator looped once per ANNOUNCED element: 8 bytes of input
+/// (`FlatVec<(), u64>` with len = u64::MAX) asked for 2^64 iterations. The test uses 2^26 and a time budget.
+#[cfg(test)]
+mod f23_zst_vec_validation_is_bounded {
+    use super::common::*;
+    #[test]
+    fn validation_work_is_bounded_by_the_input() {
+        let mem = aligned(&[0xff, 0xff, 0xff, 0x03], 4); // len = 2^26 - 1 zero-sized elements in 4 bytes of input
+        let t = std::time::Instant::now();
+        assert!(FlatVec::<(), u32>::validate(&mem).is_ok());
+        let mem = aligned(&[0xff; 8], 8);
+        assert!(FlatVec::<(), u64>::validate(&mem).is_ok());
+        assert!(t.elapsed().as_millis() < 200, "validation of 12 bytes took {:?}", t.elapsed());
+    }
+}
+
+/// KNOWN FINDING (not fixed) C18, "left unchanged" clause: the FromIterator emplacers of FlatVec / FlexVec make one pass over a source of
+/// unknown length, so they reset the target and fill it until it refuses: the refused assign leaves a valid but changed target.
+/// Asserts that the defect is STILL PRESENT.
+#[cfg(test)]
+mod known_f24_fromiterator_refusal_changes_target {
+    use super::common::*;
+    use flatty::vec::FromIterator;
+    #[test]
+    fn refused_assign_from_iterator_changes_the_vector() {
+        let mut b = AlignedBytes::new(1 + 4, 1);
+        b.iter_mut().for_each(|x| *x = 0);
+        let v = FlatVec::<u8, u8>::new_in_place(&mut b, flat_vec![7u8, 8]).unwrap();
+        let e = v.assign_in_place(FromIterator((0u8..10).into_iter())).err().unwrap();
+        assert_eq!(e.kind, ErrorKind::InsufficientSize);
+        assert!(FlatVec::<u8, u8>::validate(&b).is_ok());
+        let v = FlatVec::<u8, u8>::from_bytes(&b).unwrap();
+        assert_ne!(v.as_slice(), &[7u8, 8][..], "defect no longer reproduces");
+    }
+}
+
+/// KNOWN FINDINGS (not fixed) C17 "the encoding is a pure function of the content":
+/// (a) a sized portable enum has the size of its largest variant; the bytes behind a shorter variant are part of the image but of no field;
+/// (b) FlexVec has an "open last item" image (after push) and a "sealed item + zero terminator" image (after pop) of the same sequence.
+/// Both tests assert that the defect is STILL PRESENT.
+#[cfg(test)]
+mod known_f25_portable_images_depend_on_history {
+    use super::common::*;
+    #[flat(portable = true)]
+    #[derive(Default)]
+    enum Small { #[default] A, B(le::U32) }
+    #[test]
+    fn sized_enum_image_contains_bytes_of_no_field() {
+        assert_eq!(<Small as flatty::traits::FlatSized>::SIZE, 5);
+        let mut x = AlignedBytes::new(5, 1);
+        let mut y = AlignedBytes::new(5, 1);
+        x.iter_mut().for_each(|b| *b = 0x11);
+        y.iter_mut().for_each(|b| *b = 0x22);
+        // make both values `A` by writing only what the content determines: the tag
+        x[0] = 0;
+        y[0] = 0;
+        let a = Small::from_bytes(&x).unwrap();
+        let b = Small::from_bytes(&y).unwrap();
+        assert!(matches!(a, Small::A) && matches!(b, Small::A));
+        assert_eq!(a.size(), 5);
+        assert_ne!(a.as_bytes(), b.as_bytes(), "defect no longer reproduces");
+    }
+    #[test]
+    fn flexvec_has_two_images_of_one_sequence() {
+        type V = FlexVec<FlatVec<u8, le::U16>, le::U16>;
+        let mut x = AlignedBytes::new(32, 1);
+        let mut y = AlignedBytes::new(32, 1);
+        x.iter_mut().for_each(|b| *b = 0);
+        y.iter_mut().for_each(|b| *b = 0);
+        let v = V::default_in_place(&mut x).unwrap();
+        v.push(flat_vec![97u8, 98]).unwrap();
+        let w = V::default_in_place(&mut y).unwrap();
+        w.push(flat_vec![97u8, 98]).unwrap();
+        w.push(flat_vec![99u8]).unwrap();
+        w.pop().unwrap();
+        assert_eq!(v.len(), 1);
+        assert_eq!(w.len(), 1);
+        assert_eq!(v.iter().next().unwrap().as_slice(), w.iter().next().unwrap().as_slice());
+        assert_ne!(v.size(), w.size(), "defect no longer reproduces");
+    }
+}
+
 /// Finding 20 (C02, C05, C11): as_bytes() of a FlatVec whose element size is not a multiple of the vector's alignment
 /// is shorter than the value (not rounded to ALIGN): the value's own bytes do not re-map to the same capacity / do not validate.
 #[cfg(test)]
